@@ -14,6 +14,10 @@ func init() {
 	} {
 		add(&quick, "ZZ_C08_LengthField", b, c...)
 	}
+	// maxima small enough that a frame just above the maximum still fits into the stream (w, order, off, adj, strip, max, L, frag)
+	for _, c := range [][]int64{{1, 0, 0, 0, 0, 3, 5, 1}, {1, 1, 1, 1, 0, 4, 7, 1}} {
+		add(&quick, "ZZ_C08_LengthField", b, c...)
+	}
 	for _, w := range []int64{1, 2, 4, 8} {
 		for _, off := range []int64{0, 2} {
 			for _, adj := range []int64{-3, 0, 3} {
